@@ -268,9 +268,20 @@ class Unit:
         return []
 
     # ---- take: struct / enum / const ---------------------------------------
-    def take(self, sf, path, kind=None, keep_derive=(), extra_attrs="", make_pub=True):
+    def take(self, sf, path, kind=None, keep_derive=(), extra_attrs="", make_pub=True, structural=False):
         it = sf.item(path, kind)
         k = it["kind"]
+        if structural:
+            # E2: a field-less enum deriving PartialEq gets Eq + Structural so that exec `==` is spec equality.
+            # (`#[derive(Structural)]` inside a nested module crashes this Verus build; the manual impl is what the
+            # derive expands to for an enum without fields.)
+            if k != "enum" or any(v.get("fields") for v in it["variants"]):
+                raise Undecided("%s: structural equality requested for a type that is not a field-less enum" % path)
+            if not any(a["name"] == "derive" and "PartialEq" in a["text"] for a in it["attrs"]):
+                raise Undecided("%s: no longer derives PartialEq" % path)
+            keep_derive = tuple(keep_derive) + ("PartialEq",)
+            extra_attrs = "#[derive(Eq)]\n" + extra_attrs
+            self.rule("E2", "%s: field-less enum deriving PartialEq: added Eq + Structural" % path)
         edits = self._attr_edits(sf, it, keep_derive)
         start = self._after_attrs(sf, it)
         if k in ("struct", "enum", "const", "static", "type", "fn"):
@@ -312,6 +323,8 @@ class Unit:
             self.emit(extra_attrs, "glue", "E2")
         self.pieces += apply_edits(sf, it["span"][0], it["span"][1], edits)
         self.emit("", "glue")
+        if structural:
+            self.emit("unsafe impl Structural for %s {}" % it["name"], "rule", "E2")
         self.rule("E1", "%s %s  <- %s:%d" % (k, path, sf.rel, sf.line_of(it["span"][0])))
         return it
 
@@ -509,8 +522,10 @@ class Unit:
         self.pieces += pcs
         self.emit("", "glue")
         rec = dict(name=path, rel=sf.rel, line=sf.line_of(it["sig"][0]), rules=sorted(set(applied)),
-                   gen_name=it["name"], external_body=bool(external_body or drop_body), under_contract=under_contract and not (external_body or drop_body))
-        if external_body or drop_body:
+                   gen_name=it["name"], external_body=bool(external_body or drop_body), under_contract=under_contract and not (external_body or drop_body) and not is_trait_sig)
+        if is_trait_sig:
+            self.rule("E1", "trait fn %s (declaration)  <- %s:%d" % (path, sf.rel, rec["line"]))
+        elif external_body or drop_body:
             self.stubs.append(rec)
             self.rule("stub", "%s: body replaced by unimplemented!() (external_body; contract assumed)  <- %s:%d" % (path, sf.rel, rec["line"]))
         else:
